@@ -20,7 +20,7 @@ LEVEL = "exploration"
 RULE = (
     "Configuration product level {1.1,1.5} x image naming {by polarisation, by ScanSAR scan suffix only} x producer {create_cache=True, CLI main() with --rpc} x "
     "location {user cache dir, adjacent, both} x product filesystem {local path, file:// URL, "
-    "memory://, custom vtrace://} x rpc_write x rpc_read in {1, 2, N, N+1, 1024} x decoy: a "
+    "memory://, custom vtrace://} x rpc_write x rpc_read in {1, 2, N, N+1, 1024} x decoy x process time zone {UTC, 8 h west, 9 h east; vtrace:// reports modification times like the local filesystem does}: a "
     "pairwise-covering sample in quick (Hypothesis draws the rest), the full cross product in "
     "thorough. Oracles: (i) tree(use_cache=True) == tree(use_cache=False) leaf for leaf incl. "
     "dtypes, pixels and preferred_chunksizes from the CURRENT rpc; (ii) decoy caches (well-formed "
@@ -249,7 +249,7 @@ def run_case(case):
     files, info = product.build_product(spec)
     images = info["names"]["sar_imagery"]
     out = []
-    with harness.Materialised(files, case["fs"]) as prod:
+    with harness.process_tz(case.get("tz")), harness.Materialised(files, case["fs"]) as prod:
         url = prod.url
         try:
             ref, err = harness.guard(harness.open_tree, url, use_cache=False, records_per_chunk=case["rpc_read"])
@@ -342,6 +342,8 @@ AXES = {
     "decoy": [False, True],
     # image files told apart by polarisation (IMG-HH / IMG-HV) or only by the scan suffix (-F1 / -F2)
     "naming": ["pol", "scan"],
+    # time zone of the process (POSIX TZ strings: UTC, 8 h west, 9 h east of it)
+    "tz": [None, "PST8", "JST-9"],
 }
 
 
@@ -409,7 +411,7 @@ def plan(tier):
 
 def classify(case):
     nontrivial = case["rpc_write"] != case["rpc_read"] or case["location"] == "both" or case["fs"] in ("memory", "vtrace")
-    return nontrivial, [f"fs={case['fs']}", f"producer={case['producer']}", f"location={case['location']}", f"level={case['level']}", f"decoy={case['decoy']}", f"naming={case.get('naming', 'pol')}"]
+    return nontrivial, [f"fs={case['fs']}", f"producer={case['producer']}", f"location={case['location']}", f"level={case['level']}", f"decoy={case['decoy']}", f"naming={case.get('naming', 'pol')}", f"tz={case.get('tz')}"]
 
 
 LEVEL_TEXT = (
